@@ -1,8 +1,50 @@
 (* C13 - Standard metadata values are interpreted as documented.
-   Statements only; proofs live in Proofs/StdMetaProofs.v. *)
+   Statements only; proofs live in Proofs/StdMetaProofs.v.
+   [cfg_new dbg] is the code as it is now (after the repairs recorded in
+   known_findings.json), [cfg_old dbg] the code as found; [dbg] selects the debug
+   build (overflow checks panic) or the release build (wrap-around).  [pf] is the
+   f64 reader (an oracle: any function), [alpha] the Unicode alphabetic test used
+   by the URL scheme check, [cv] any list of time units of a converter. *)
 From CL Require Import Base.StrLemmas Model.StdMeta Proofs.StdMetaProofs.
 
+(* the defects of the code as found, kept as refutations of the old model *)
 Theorem C13_hm_overflow_refuted_before_fix :
   exists s, parse_time parse_f64 (cfg_old true) [] s = Panic site_hm_mul.
 Proof. eexists. exact hm_mul_overflow_debug. Qed.
 Print Assumptions C13_hm_overflow_refuted_before_fix.
+
+Theorem C13_wrapped_number_refuted_before_fix :
+  exists s n, parse_time parse_f64 (cfg_old false) [] s = Done (Some n) /\ n = 1705032644.
+Proof. eexists _, _. split; [exact hm_mul_overflow_release | reflexivity]. Qed.
+Print Assumptions C13_wrapped_number_refuted_before_fix.
+
+(* reading a duration never panics or overflows, debug or release, whatever the
+   string, the converter's time units and the float reader *)
+Theorem C13_time_total :
+  forall pf dbg cv s, exists r, parse_time pf (cfg_new dbg) cv s = Done r.
+Proof. intros. apply parse_time_total. reflexivity. Qed.
+Print Assumptions C13_time_total.
+
+Theorem C13_as_time_total :
+  forall pf dbg cv v, exists r, value_as_time pf (cfg_new dbg) cv v = Done r.
+Proof. intros. apply value_as_time_total. reflexivity. Qed.
+Print Assumptions C13_as_time_total.
+
+(* RecipeTime::total is the sum of prep and cook when it fits a u32, else u32::MAX *)
+Theorem C13_total_saturates :
+  forall dbg p k,
+    total (cfg_new dbg) (TComposed p k)
+    = Done (N.min ((match p with Some x => x | None => 0 end) + (match k with Some x => x | None => 0 end)) u32_max).
+Proof. intros. apply (total_spec (cfg_new dbg) p k). reflexivity. Qed.
+Print Assumptions C13_total_saturates.
+
+(* the parse-time check of a standard key warns exactly when the accessor of that
+   key returns nothing; and it hands servings to the scaler only as the accessor
+   reads them *)
+Theorem C13_warning_iff_none :
+  forall pf alpha dbg k cv v,
+  exists w r, check_std_entry pf alpha (cfg_new dbg) k cv v = Done (w, r)
+              /\ (w = true <-> accessor_none pf alpha (cfg_new dbg) k cv v)
+              /\ (r <> None -> k = KServings /\ w = false /\ r = value_as_servings v).
+Proof. intros. apply warning_iff_none. reflexivity. Qed.
+Print Assumptions C13_warning_iff_none.
